@@ -12,7 +12,7 @@
    theorem below holds in particular for every shipped real / integer /
    boolean / string primitive, for `variable` and for constants.
 
-   Results are compared as [res]: a value, a C++ exception (RThrow), undefined
+   Results are compared as [mres]: a value, a C++ exception (RThrow), undefined
    behaviour (RStuck) -- the equality with the denotation covers all three --
    or ROutOfFuel, which the theorems exclude.  [st] is ANY interpreter state:
    whatever earlier runs (including runs that ended in an exception, which do
